@@ -80,7 +80,6 @@ func (h *Handler6) startRADVS(managed bool, other bool, prefixes []packet.Prefix
 	radvs = &RADVS{stopChannel: make(chan bool, 1)}
 	h.Lock() // LANRouters and Router are read by the spoof loops under the lock
 	radvs.Router, _ = h.findOrCreateRouter(h.session.NICInfo.HostAddr4.MAC, h.session.NICInfo.HostLLA.Addr())
-	h.Unlock()
 	radvs.Router.enableRADVS = true
 	radvs.Router.ManagedFlag = managed
 	radvs.Router.OtherCondigFlag = other
@@ -91,6 +90,7 @@ func (h *Handler6) startRADVS(managed bool, other bool, prefixes []packet.Prefix
 	radvs.Router.DefaultLifetime = time.Minute * 30 // A value of zero means the router is not to be used as a default router
 	radvs.Router.Prefixes = prefixes
 	radvs.Router.RDNSS = rdnss
+	h.Unlock() // the router entry is shared with ProcessPacket, which updates it under the lock
 	radvs.h = h
 
 	go radvs.sendAdvertistementLoop()
